@@ -20,14 +20,14 @@ import warnings
 from .. import common
 from ..common import Result, Violation
 
-KINDS = ["new_tg", "new_bt", "old_tg", "none", "dataclass", "method", "classmethod", "gen", "coro", "recurse"]
+KINDS = ["new_tg", "new_bt", "old_tg", "none", "new_unann", "dataclass", "method", "classmethod", "gen", "coro", "recurse"]
 EXITS = ["return", "raise_exc", "raise_base", "raise_kbd", "raise_sysexit", "raise_genexit", "bad_args", "bad_return", "nonbinding"]
 CTX_EXITS = ["return", "raise_exc", "raise_base", "raise_genexit"]
 PRE = [None, ["check", "a", 2], ["check", "b", 2]]
 POST = [None, ["check", "a", 2], ["sym"]]
 ATOMS = [None, ["check", "a", 1], ["check", "a", 2], ["sym"]]
 
-QUICK_KINDS = ["new_tg", "new_bt", "old_tg", "none", "dataclass", "gen", "coro", "recurse"]
+QUICK_KINDS = ["new_tg", "new_bt", "old_tg", "none", "new_unann", "dataclass", "gen", "coro", "recurse"]
 QUICK_EXITS = ["return", "raise_exc", "raise_base", "bad_args", "bad_return"]
 
 
@@ -50,8 +50,8 @@ def applicable(kind, ex):
         return False
     if kind == "dataclass" and ex == "bad_return":
         return False
-    if kind == "none" and ex in ("bad_args", "bad_return"):
-        return True  # typechecker=None: nothing is checked, the body runs
+    if kind in ("none", "new_unann") and ex in ("bad_args", "bad_return"):
+        return True  # nothing is annotated / checked, the body runs
     return True
 
 
@@ -140,7 +140,7 @@ class RefInterp:
         return {"return": "returned", "bad_return": "returned", "bad_args": "returned", "raise_exc": "VerifFault", "raise_base": "VerifBaseFault", "raise_kbd": "KeyboardInterrupt", "raise_sysexit": "SystemExit", "raise_genexit": "GeneratorExit"}[ex]
 
     def call(self, kind, ex, body, level=0):
-        checked = kind not in ("none",)
+        checked = kind not in ("none", "new_unann")
         if ex == "nonbinding":
             return ("TypeError", False)
         if kind in ("gen", "coro"):
@@ -343,6 +343,11 @@ def make_env():
         warnings.simplefilter("ignore")
         c["old_tg"] = jaxtyped(typeguard.typechecked(mk()))
     c["none"] = jaxtyped(typechecker=None)(mk())
+
+    def unann(x, n=7):
+        return body(x)
+
+    c["new_unann"] = jaxtyped(typechecker=beartype.beartype)(unann)
     c["recurse"] = jaxtyped(typechecker=typeguard.typechecked)(mk("r"))
 
     @jaxtyped(typechecker=typeguard.typechecked)
